@@ -13,7 +13,7 @@ in hex, `~` = absent / empty list)
    reader as written: fgets pieces of a <size>-byte buffer glued until a newline) or W (whole lines); ARG = one -w optarg (HEX) or
    one -x optarg (X followed by HEX)
    a MODE ending in `+c`: `read_wcoll` closes the stream it opened (F10-TOPFD repaired)
-   answer: STATUS NWARN CREATED EXPRS EXCL OPENED TOPOPEN  (STATUS ok|fatal|starved; lists comma separated;
+   answer: STATUS NWARN CREATED EXPRS EXCL OPENED TOPOPEN REGEX  (STATUS ok|fatal|starved; lists comma separated;
    TOPOPEN = streams `read_wcoll` itself left open, `Opt/WcollTopFd.lean`)
 `pdshmodel wcoll spec`:
    STDIN ENV NSRC SRC... NFILES (PATH R CONTENT)...     SRC = w:HEX | f:HEX | s | x:HEX (exclusion file)
@@ -27,6 +27,10 @@ abbrev Str := List Char
 def hx (s : Str) : String := Hex.encodeChars s
 def hxs (l : List Str) : String := if l.isEmpty then "~" else ",".intercalate (l.map hx)
 def unhx (s : String) : Option Str := Hex.decodeToChars s
+/-- `regex_list`: `+HEX` (a positive pattern: keep the names that match) or `-HEX` (a pattern behind a dash: drop
+them), comma separated -/
+def hxr (l : List (Bool × Str)) : String :=
+  if l.isEmpty then "~" else ",".intercalate (l.map fun p => (if p.1 then "-" else "+") ++ hx p.2)
 def optStr (s : String) : Option (Option Str) := if s = "~" then some none else (unhx s).map some
 
 def parseFiles : Nat → List String → Option (Wcoll.FS × List String)
@@ -66,7 +70,7 @@ def runModel (line : String) : String :=
         let stT := Wcoll.assembleOptsT closeTop mode fs (stdin.getD []) args env
         let st := stT.1
         let status := if st.starved then "starved" else if st.fatal then "fatal" else "ok"
-        pure s!"{status} {st.nwarn} {if st.created then 1 else 0} {hxs st.exprs} {hxs st.excl} {hxs st.opened.flatten} {stT.2}"
+        pure s!"{status} {st.nwarn} {if st.created then 1 else 0} {hxs st.exprs} {hxs st.excl} {hxs st.opened.flatten} {stT.2} {hxr st.regex}"
       | [] => none
     r.getD "bad-op"
   | _ => "bad-op"
